@@ -788,6 +788,46 @@ def r07_4(ctx):
         clears = [wb.id for wb, wbi, role, how in ws if role != flagstate.SET]
         clears += [wb.id for wb, wbi in flagstate.mut_borrow_escapes(lib, fl)]
         ctx.ob("bom:flag-never-cleared", not clears, site(b), "the start flag is never reset" if not clears else f"`{fld}` is reset in {clears}")
+    # the same protocol for a mark tested as bytes inside a reader adapter (`impl Read for SkipBom`: `read` runs once per
+    # chunk, so "the first chunk" needs a start flag that every first call sets)
+    for b in lib.bodies:
+        if b.raw.get("impl_trait") != "std::io::Read" or b.name != "read":
+            continue
+        for bb, t in b.calls():
+            f = fn_of(t) or {}
+            if f.get("name") not in ("starts_with", "strip_prefix") or len(t["args"]) != 2:
+                continue
+            nt = trace(b, t["args"][1], passthrough_extra=("core::str::<impl str>::as_bytes", "std::string::String::as_bytes"))
+            dec = nt.origin[1].get("decoded") if nt.origin and nt.origin[0] == "const" else None
+            seq = [x.get("v") for x in dec["seq"]] if isinstance(dec, dict) and isinstance(dec.get("seq"), list) else None
+            if seq is None and nt.origin and nt.origin[0] == "const":
+                txt = dec.get("str") if isinstance(dec, dict) and isinstance(dec.get("str"), str) else nt.origin[1].get("str")
+                if isinstance(txt, str):
+                    seq = list(txt.encode("utf-8"))
+            if seq != [0xEF, 0xBB, 0xBF]:
+                continue
+            key = f"bom-bytes:{(b.raw.get('impl_self_adt') or '').rsplit('::', 1)[-1]}"
+            bsup = Super(lib, b, depth=0)
+            found = None
+            for fl in flagstate.flags_of(lib, b.raw.get("impl_self_adt") or ""):
+                for tst in flagstate.tests(bsup, fl):
+                    found = found or (fl, tst)
+            if not found:
+                ctx.ob(key + ":only-before-start", False, site(b, bb), "a reader adapter compares every chunk with the UTF-8 byte order mark and has no start-of-stream flag: EF BB BF at the start of a later chunk (U+FEFF inside the text) would be deleted")
+                continue
+            fl, tst = found
+            se = tst["edges"][flagstate.SET]
+            started = (se[0][1], se[1], se[2][1])
+            ws = flagstate.writes(lib, fl)
+            setters = [wbi for wb, wbi, role, how in ws if wb is b and role == flagstate.SET]
+            r = b.reachable_from(0, removed_nodes=setters, removed_edges=[started])
+            # (returns that hand nothing to the caller do not count: an error, or an empty read)
+            armed = bool(setters) and (0 in setters or not any(x in r for x in b.return_blocks()))
+            if not armed and setters:
+                # `let started = mem::replace(&mut self.started, true)`: the write comes before the test
+                armed = all(b.dominates(sx, tst["node"][1]) for sx in setters[:1])
+            ctx.ob(key + ":flag-set-first", armed, site(b, bb), f"`{fl.field}` leaves its initial state on every call that saw it there: only the first chunk is compared with the mark" if armed else
+                   f"`{fl.field}` is not set on some path through `read` (it is set only where a mark was found): a stream without a leading mark keeps comparing, and EF BB BF at the start of a later chunk (U+FEFF inside a string that straddles a read boundary) is deleted")
 
 
 def _derived_refs(b, arr):
@@ -914,6 +954,88 @@ def _read_then_exact(sup, arr, width):
     return out
 
 
+_FILL_HELPERS = {}
+
+
+def _fill_exact_param(lib, callee):
+    """A hand-written `read_exact`: 1-based index of the `&mut [u8]` parameter that `callee` fills completely from a
+    reader before it returns Ok, or None. Recognised shape: a loop around `Read::read(src, &mut unit[filled..])`, with
+    `filled` starting at 0 and growing by the counts read, and `Ok` returned only on the edge where `filled <
+    unit.len()` is false (so every Ok return has taken exactly `unit.len()` bytes; a 0-byte read is an error)."""
+    key = (id(lib), callee.id)
+    if key in _FILL_HELPERS:
+        return _FILL_HELPERS[key]
+    res = None
+    try:
+        slices = [k for k in range(1, callee.nargs + 1) if callee.local_ty(k).replace(" ", "") in ("&mut[u8]",) or callee.local_ty(k) == "&mut [u8]"]
+        reads = [(bb, t) for bb, t in callee.calls() if (fn_of(t) or {}).get("trait") == "std::io::Read" and (fn_of(t) or {}).get("name") == "read" and len(t["args"]) == 2 and callee.on_cycle(bb)]
+        other = [(bb, t) for bb, t in callee.calls() if (fn_of(t) or {}).get("trait") in ("std::io::Read", "std::io::BufRead") and (fn_of(t) or {}).get("name") in ("read_exact", "read_to_end", "consume", "read_vectored", "read_buf")]
+        if len(slices) == 1 and len(reads) == 1 and not other:
+            u = slices[0]
+            rbb, rt = reads[0]
+            # the read's destination is `unit[filled..]`
+            dt = trace(callee, rt["args"][1], passthrough_extra=("std::ops::IndexMut::index_mut", "std::ops::Index::index"))
+            on_unit = bool(dt.origin and dt.origin[0] == "arg" and dt.origin[1] == u)
+            # the loop test: `filled < unit.len()`, Ok returned only from its false edge
+            ok_edge = False
+            for sb in sorted(callee.reach()):
+                sw = callee.blocks[sb]["term"]
+                if sw["k"] != "switch" or not is_place(sw["discr"]):
+                    continue
+                for s_ in callee.blocks[sb]["stmts"]:
+                    if not (s_["k"] == "assign" and not s_["p"]["pr"] and s_["p"]["l"] == sw["discr"]["p"]["l"] and s_["rv"]["k"] == "binop" and s_["rv"]["op"] in ("Lt", "Ne")):
+                        continue
+                    lt = trace(callee, s_["rv"]["b"])
+                    is_len = False
+                    if lt.origin and lt.origin[0] == "call" and (fn_of(lt.origin[2]) or {}).get("name") == "len" and lt.origin[2]["args"]:
+                        at = trace(callee, lt.origin[2]["args"][0])
+                        is_len = bool(at.origin and at.origin[0] == "arg" and at.origin[1] == u)
+                    elif lt.origin and lt.origin[0] == "rvalue" and lt.origin[1]["rv"]["k"] in ("len", "ptr_metadata", "unop"):
+                        is_len = True
+                    if not is_len:
+                        continue
+                    fl = s_["rv"]["a"]["p"]["l"] if is_place(s_["rv"]["a"]) and not s_["rv"]["a"]["p"]["pr"] else None
+                    ft = trace(callee, s_["rv"]["a"]) if is_place(s_["rv"]["a"]) else None
+                    froot = ft.origin[1] if ft and ft.origin and ft.origin[0] == "multi" else fl
+                    if froot is None:
+                        continue
+                    # `filled`: 0 at first, then only `filled + n` with n the read's count
+                    defs_ok = True
+                    for _, _, k_, p_ in callee.whole_defs(froot):
+                        if k_ == "assign" and p_["rv"]["k"] == "use" and const_value(p_["rv"]["op"]) == 0:
+                            continue
+                        if k_ == "assign" and p_["rv"]["k"] == "use" and is_place(p_["rv"]["op"]):
+                            t2 = trace(callee, p_["rv"]["op"])
+                            if t2.origin and t2.origin[0] == "rvalue" and t2.origin[1]["rv"]["k"] == "binop" and t2.origin[1]["rv"]["op"].startswith("Add"):
+                                nt = trace(callee, t2.origin[1]["rv"]["b"], passthrough_extra=("std::ops::Try::branch",))
+                                if nt.origin and nt.origin[0] == "call" and nt.origin[2] is rt:
+                                    continue
+                        if k_ == "assign" and p_["rv"]["k"] == "binop" and p_["rv"]["op"].startswith("Add"):
+                            nt = trace(callee, p_["rv"]["b"], passthrough_extra=("std::ops::Try::branch",))
+                            if nt.origin and nt.origin[0] == "call" and nt.origin[2] is rt:
+                                continue
+                        defs_ok = False
+                    if not defs_ok:
+                        continue
+                    zero_t = [x for v, x in sw["targets"] if v == 0]
+                    if not zero_t:
+                        continue
+                    ok_rets = []
+                    for rb in callee.return_blocks():
+                        for bb_, _, k_, p_ in callee.whole_defs(0):
+                            if k_ == "assign" and p_["rv"]["k"] == "aggregate" and p_["rv"].get("variant") == "Ok":
+                                ok_rets.append(bb_)
+                    ok_rets = sorted(set(ok_rets))
+                    if ok_rets and all(callee.edge_dominates(sb, 0, zero_t[0], ob) for ob in ok_rets):
+                        ok_edge = True
+            if on_unit and ok_edge:
+                res = u
+    except Exception:
+        res = None
+    _FILL_HELPERS[key] = res
+    return res
+
+
 def _unit_effects(sup, node, arr, width):
     """(bytes taken from a reader, bytes added to a u64 position) by the block `node` of a supergraph, in units of
     bytes; None for an amount that cannot be determined. A read_exact into the decoded array `arr` and a length
@@ -955,6 +1077,16 @@ def _unit_effects(sup, node, arr, width):
             used = amount(t["args"][1])
         elif f.get("trait") == "std::io::Read" and f.get("name") in ("read", "read_to_end", "read_buf", "read_vectored", "read_to_string"):
             used = None
+        elif f.get("local") and sup.crate.by_id.get(f.get("resolved") or f.get("def")) is not None and _fill_exact_param(sup.crate, sup.crate.by_id[f.get("resolved") or f.get("def")]):
+            # a hand-written read_exact (a loop of reads until the slice is full): on its Ok return it has taken the
+            # slice's length
+            cb_ = sup.crate.by_id[f.get("resolved") or f.get("def")]
+            k_ = _fill_exact_param(sup.crate, cb_)
+            if k_ - 1 < len(t["args"]):
+                if arr is not None and _same_array(sup, node, t["args"][k_ - 1], arr):
+                    used = width
+                else:
+                    used = _array_len_behind(body, t["args"][k_ - 1])
     for s_ in blk["stmts"]:
         if s_["k"] != "assign" or not s_["p"]["pr"]:
             continue
@@ -1004,7 +1136,7 @@ def r07_8(ctx):
                 continue
             seen_units.add((ub.id, width))
             n += 1
-            sup = Super(lib, ub, depth=3)
+            sup = Super(lib, ub, depth=3, follow=lambda f_: not (f_.get("local") and lib.by_id.get(f_.get("resolved") or f_.get("def")) is not None and _fill_exact_param(lib, lib.by_id[f_.get("resolved") or f_.get("def")])))
             dnodes = [nn for nn, nb, t in sup.calls() if t is dt]
             if not dnodes:
                 ctx.ob(f"unit-bytes:{ub.name}", False, site(b0, dbb0), "the decode call is not reachable in the unit reader's supergraph")
